@@ -96,7 +96,7 @@ m = {
            "source_commits": os.popen("git -C /repo log --format=%H --grep='^verif:'").read().split(),
            "add_only": True},
  "engines": [{"name": "govc", "path": "/verif/govc", "serves_properties": sorted(claims),
-              "kind_free_text": "home-made deductive verifier for Go: contracts in /repo/contracts_verif.go (build tag verif), symbolic execution of the typed AST of the working tree, VCs discharged by z3 5.1.0 / cvc5 1.0.3, counterexamples replayed on the real code with go test -overlay"}],
+              "kind_free_text": "home-made deductive verifier for Go: contracts in /repo/contracts_verif.go (build tag verif), symbolic execution of the typed AST of the working tree, VCs discharged by z3 4.8.12 / z3 5.1.0 / cvc5 1.0.3, counterexamples replayed on the real code with go test -overlay"}],
  "checks": checks,
  "not_applicable": na,
  "notes": "see DESIGN.md; known findings in known_findings.txt",
